@@ -242,6 +242,8 @@ func (s *Session) staticCall(fr *Frame, fn *ssa.Function, bindings []Val, args [
 		return h(s, fr, fn, args, st)
 	}
 	if c := s.contractFor(fn); c != nil {
+		s.callBindings = bindings
+		defer func() { s.callBindings = nil }()
 		return s.applyContract(fr, c, fn, fn.Signature, args, st)
 	}
 	pkg := fnPkgPath(fn)
@@ -489,6 +491,16 @@ func (s *Session) applyContract(fr *Frame, c *Contract, fn *ssa.Function, sig *t
 			env[n] = args[i]
 		}
 	}
+	// a closure under contract: the names of its captured variables denote their content at the call
+	if fn != nil && len(fn.FreeVars) > 0 && len(s.callBindings) == len(fn.FreeVars) {
+		for i, fv := range fn.FreeVars {
+			b := s.callBindings[i]
+			if _, isPtr := fv.Type().Underlying().(*types.Pointer); isPtr {
+				env[fv.Name()] = s.load(st, s.toLoc(b))
+			}
+		}
+	}
+	s.callBindings = nil
 	short := c.FuncKey
 	fr.callOrd[short]++
 	ord := fr.callOrd[short]
@@ -1237,6 +1249,16 @@ func (s *Session) scanContractMods(c *Contract, fn *ssa.Function, sig *types.Sig
 	}
 	for i := 0; i < sig.Params().Len(); i++ {
 		ptypes[names[k+i]] = sig.Params().At(i).Type()
+	}
+	if fn != nil {
+		// a closure's contract may name the variables it captures
+		for _, fv := range fn.FreeVars {
+			if pt, isP := fv.Type().Underlying().(*types.Pointer); isP {
+				if _, dup := ptypes[fv.Name()]; !dup {
+					ptypes[fv.Name()] = pt.Elem()
+				}
+			}
+		}
 	}
 	if c.Options["event"] != "" {
 		for _, n := range []string{"evclock", "evlast", "evres", "evcount"} {
